@@ -109,6 +109,27 @@ def contract_workload(res, ctx):
                               {'file': data})
                 continue
             res.count('records_via_container', n)
+        # a record decodes the same wherever it lies in a capture: thousands of records, in one section / in thousands of
+        # small sections (v3), after hundreds of thread-map entries, through every kind of stream object
+        for m, k in ctx.pick(((3000, 1), (3000, 1500), (2500, 2500)), ((70000, 1), (70000, 35000), (5000, 5000), (3000, 1500))):
+            recs = _gen.gen_records(rng, m, first_nonzero=True)
+            for kind in ('v2', 'v3'):
+                data = wire.v2_file([], 8, recs) if kind == 'v2' else \
+                    wire.V3Spec(chunks=[recs[i * m // k:(i + 1) * m // k] for i in range(k)]).build()
+                try:
+                    got = [wire.event_tuple(e) for e in KdBufParser({}, {}).parse(wire.stream(data)) if hasattr(e, 'debugid')]
+                except Exception as e:
+                    res.violation(f'c01-container-raises-{core.exc_name(e)}', f'{m} records in a {kind} dump'
+                                  + (f' of {k} sections' if kind == 'v3' else '') + f': {e!r}', {'file': data if len(data) < 400000 else data[:4096]})
+                    break
+                res.count('records_via_container', len(got))
+                res.count('long_captures_decoded')
+                if got != [wire.ref_tuple(r) for r in recs]:
+                    j = next((i for i, (a, b) in enumerate(zip(got, [wire.ref_tuple(r) for r in recs])) if a != b), min(len(got), m))
+                    res.violation('c01-via-container', f'record {j} of {m} read through a {kind} dump'
+                                  + (f' of {k} sections' if kind == 'v3' else '') + ' decodes differently from the reference',
+                                  {'file': data if len(data) < 400000 else data[:4096]})
+                    break
         # records of several dumps decoded at the same time (generators advanced alternately)
         from props import c02
         for _ in range(ctx.pick(10, 100)):
@@ -213,6 +234,7 @@ def run(ctx):
     res.require('bit_flips', 512)
     res.require('byte_couplings', 1000)
     res.require('threaded_parses', 6)
+    res.require('long_captures_decoded', 4)
     res.require('contract_evaluations', 1)
     return res
 
